@@ -459,8 +459,19 @@ def state_res(st):
             "canon": hashlib.sha1(json.dumps([facts, fluents, bool(st.is_init)]).encode()).hexdigest()[:12]}
 
 
-def text_res(t):
-    return {"text": hashlib.sha1(t.encode()).hexdigest()[:12], "len": len(t)}
+def _bag(t):
+    return hashlib.sha1(" ".join(sorted(t.replace("(", " ( ").replace(")", " ) ").split())).encode()).hexdigest()[:12]
+
+
+def text_res(t, exact=None):
+    """`text` is compared only between calls on the same objects in one run; `bag` (the multiset of tokens) and `exact`
+    (a part whose ORDER is part of the value: parameter names, an action call) are what is compared across runs: the
+    order in which facts, fluents and set members are printed depends on address-hashed sets (effect groups) and so
+    differs from run to run"""
+    r = {"text": hashlib.sha1(t.encode()).hexdigest()[:12], "len": len(t), "bag": _bag(t)}
+    if exact is not None:
+        r["exact"] = hashlib.sha1(exact.encode()).hexdigest()[:12]
+    return r
 
 
 def resolve(op, ctx):
@@ -552,11 +563,11 @@ def execute(op, ctx, register=True):
         return text_res(json.dumps(sorted((n, str(o.type)) for n, o in ctx.sts[op["st"]][0].get_state_objects().items())))
     if k == "str_op":
         o = ctx.ops[op["op"]]
-        return text_res(str(o) + "|" + o.typed_action_call)
+        return text_res(str(o) + "|" + o.typed_action_call, exact=str(o) + "|" + o.typed_action_call)
     if k == "str_action":
         dom = ctx.doms[op["dom"]]
         a = dom.actions[op["act"]]
-        return text_res(str(a) + "|" + ",".join(a.parameter_names))
+        return text_res(str(a) + "|" + ",".join(a.parameter_names), exact=",".join(a.parameter_names))
     if k == "export":
         t = DomainExporter().extract_domain(ctx.doms[op["dom"]])
         r = text_res(t)
@@ -631,7 +642,7 @@ def execute(op, ctx, register=True):
         path.write_text("".join("%s\n" % c["call"] for c in calls))
         joint = PlanConverter(dom).convert_plan(prob, path, agent_names=list(op["agents"]),
                                                 should_validate_concurrency_constraint=bool(op.get("validate", True)))
-        r = text_res("\n".join(str(j) for j in joint))
+        r = text_res("\n".join(str(j) for j in joint), exact="\n".join(str(j) for j in joint))
         r.update({"steps": len(calls), "joint": len(joint)})
         return r
     if k == "parse_traj":
@@ -783,6 +794,11 @@ def run_history(job, wdir, shared_domains=None, oracle=True, watch=None, mark_st
     return out, ctx
 
 
+def _state_value(st):
+    return ([p.untyped_representation for ps in st.state_predicates.values() for p in ps]
+            + ["(= %s %s)" % (k, float(f.value).hex()) for k, f in st.state_fluents.items()])
+
+
 def _nomsg(r):
     return {k: v for k, v in r.items() if k != "msg"} if isinstance(r, dict) else r
 
@@ -829,13 +845,14 @@ def history(job):
             # before (statics restored, memo tables emptied); no oracle, only the answers
             tdir = wdir / "twin"
             tdir.mkdir()
-            tout, _ = run_history(dict(job, indep=None), tdir, oracle=False)
+            tout, tctx = run_history(dict(job, indep=None), tdir, oracle=False)
+            twin_states = [_state_value(st) for st, _ in tctx.sts]
             twin = [None if s.get("skipped") else strip_x(s["res"]) for s in tout["steps"]]
             twin_leak = _reset_module()
         s0 = {n: digest([o]) for n, o in statics()}
         indep = Indep(job["indep"], wdir) if job.get("indep") else None
         s1 = {n: digest([o]) for n, o in statics()}
-        out, _ = run_history(job, wdir, indep=indep)
+        out, ctx = run_history(job, wdir, indep=indep)
         out["module_leak"] = sorted(set(_reset_module()) | set(twin_leak))
         if twin is not None:
             # the history's answers must not depend on whether another domain and problem were parsed and used before it
@@ -843,6 +860,15 @@ def history(job):
             out["twin_mismatch"] = [{"step": i, "op": out["steps"][i].get("op"), "alone": _short(a), "after_the_independent_world": _short(b)}
                                     for i, (a, b) in enumerate(zip(twin, got)) if _nomsg(a) != _nomsg(b)][:4]
             out["memo_caches"] = [n for n, _ in memo_caches()]
+            if out["twin_mismatch"]:
+                # the first live state whose VALUE differs between the two runs, as sets of atoms
+                for i, (a, (st, _)) in enumerate(zip(twin_states, ctx.sts)):
+                    b = _state_value(st)
+                    if a != b:
+                        out["twin_mismatch"][0]["first_differing_state"] = {
+                            "state": "S%d" % i, "only_when_run_alone": sorted(set(a) - set(b))[:8],
+                            "only_after_the_independent_world": sorted(set(b) - set(a))[:8]}
+                        break
         built = sorted(n for n in s0 if s1.get(n) != s0[n])
         if built:      # building / simulating the independent world itself wrote a process-wide object
             out["statics_changed"] = sorted(set(out.get("statics_changed", [])) | set(built))
